@@ -9,7 +9,18 @@ use sophia_api::term::SimpleTerm;
 use sophia_inmem::graph::FastGraph;
 use sophia_isomorphism::isomorphic_graphs;
 use sophia_xml::serializer::{RdfXmlConfig, RdfXmlSerializer};
-use std::collections::HashMap;
+use rio_api::model as rm;
+use sophia_api::quad::Spog;
+use sophia_api::source::{IntoSource, StreamError};
+use sophia_api::term::TermKind;
+use sophia_inmem::dataset::{FastDataset, LightDataset};
+use sophia_inmem::graph::LightGraph;
+use sophia_iri::Iri;
+use sophia_rio::model::Trusted;
+use sophia_xml::parser::RdfXmlParser;
+use std::collections::{BTreeSet, HashMap, HashSet};
+use std::convert::Infallible;
+use std::io::{self, Write};
 use std::panic::{AssertUnwindSafe, catch_unwind};
 use std::sync::atomic::{AtomicBool, Ordering};
 use verif_harness::*;
@@ -228,6 +239,289 @@ fn bcp47_simple(tag: &str) -> bool { // the tags the generator treats as well-fo
 }
 
 // ---------------------------------------------------------------------------------------------
+// every public way of driving the serializer (and the parser)
+//   feeds    : serialize_triples on every kind of triple source, serialize_graph on every kind of graph
+//              container (Vec, slice, references, sets, in-memory graphs, dataset views)
+//   writers  : the stringifier (to_string / as_str / as_utf8), Vec, &mut Vec, BufWriter, Cursor, writers with
+//              short writes / interruptions / a byte limit
+//   configs  : every way of building an RdfXmlConfig / RdfXmlSerializer
+//   calls    : several calls on one serializer
+// Each run records the sequence of triples it FED (observed independently by listing the container), and is
+// judged by the same round-trip oracle as the baseline.
+// ---------------------------------------------------------------------------------------------
+type DetHash = std::hash::BuildHasherDefault<std::collections::hash_map::DefaultHasher>;
+#[derive(Clone, Copy, PartialEq, Debug)]
+enum EK { Source, Sink }
+type FeedRes = (Vec<T3>, Result<(), (EK, String)>);
+fn se<T, A, B>(r: Result<T, StreamError<A, B>>) -> Result<(), (EK, String)> where A: std::error::Error + Send + Sync + 'static, B: std::error::Error + Send + Sync + 'static {
+    match r { Ok(_) => Ok(()), Err(e) => { let txt = e.to_string(); Err((match e { StreamError::SourceError(_) => EK::Source, StreamError::SinkError(_) => EK::Sink }, txt)) } }
+}
+fn st3<T: Triple>(t: T) -> T3 { [t.s().into_term(), t.p().into_term(), t.o().into_term()] }
+fn listing<G: Graph>(g: &G) -> Vec<T3> { g.triples().map(|t| st3(t.ok().expect("infallible listing"))).collect() }
+fn exact(a: &[T3], b: &[T3]) -> bool { format!("{a:?}") == format!("{b:?}") }
+/// the set of triples under Term::eq (language tags compared case-insensitively)
+fn set_key(a: &[T3]) -> BTreeSet<String> {
+    fn low(t: &ST) -> ST { match t { SimpleTerm::LiteralLanguage(l, tag) => lit_lang(l, &tag.as_str().to_ascii_lowercase()), SimpleTerm::Triple(x) => triple(low(&x[0]), low(&x[1]), low(&x[2])), _ => t.clone() } }
+    a.iter().map(|t| format!("{:?}", [low(&t[0]), low(&t[1]), low(&t[2])])).collect()
+}
+fn gname(i: usize) -> Option<ST> { match i { 0 => None, 1 => Some(iri("http://e/g1")), 2 => Some(iri("http://e/g2")), _ => Some(bnode("g3")) } }
+fn noise(i: usize) -> T3 { [iri("http://e/noise"), iri("http://e/np"), lit_dt(&format!("noise {i}"), &format!("{XSD}string"))] }
+
+/// the containers of one graph
+struct Aux {
+    fast: Option<FastGraph>, light: Option<LightGraph>, bset: BTreeSet<T3>, hset: HashSet<T3, DetHash>,
+    ds_named: Vec<Spog<ST>>,           // g in <g1>; noise in the default graph and in <g2>
+    ds_default: Option<FastDataset>,   // g in the default graph; noise in <g2>
+    ds_spread: Vec<Spog<ST>>,          // g spread over the default graph, <g1>, <g2>, _:g3 (in order)
+    ds_partial: Option<LightDataset>,  // g spread over <g1> and _:g3; noise in the default graph and <g2>
+}
+impl Aux {
+    fn new(g: &Vec<T3>) -> Aux {
+        let mut fast = Some(FastGraph::new()); let mut light = Some(LightGraph::new());
+        let mut ds_default = Some(FastDataset::new()); let mut ds_partial = Some(LightDataset::new());
+        let mut ds_named: Vec<Spog<ST>> = vec![(noise(0), None)]; let mut ds_spread = vec![];
+        for (i, t) in g.iter().enumerate() {
+            if let Some(f) = &mut fast { if MutableGraph::insert(f, &t[0], &t[1], &t[2]).is_err() { fast = None; } }
+            if let Some(f) = &mut light { if MutableGraph::insert(f, &t[0], &t[1], &t[2]).is_err() { light = None; } }
+            if let Some(d) = &mut ds_default { if MutableDataset::insert(d, &t[0], &t[1], &t[2], None::<&ST>).is_err() { ds_default = None; } }
+            if let Some(d) = &mut ds_partial { let n = gname(if i % 2 == 0 { 1 } else { 3 }); if MutableDataset::insert(d, &t[0], &t[1], &t[2], n.as_ref()).is_err() { ds_partial = None; } }
+            ds_named.push((t.clone(), gname(1)));
+            if i % 2 == 1 { ds_named.push((noise(i), gname(2))); }
+            ds_spread.push((t.clone(), gname(i % 4)));
+        }
+        if let Some(d) = &mut ds_default { let n = noise(1); let _ = MutableDataset::insert(d, &n[0], &n[1], &n[2], gname(2).as_ref()); }
+        if let Some(d) = &mut ds_partial { for (i, gn) in [(2, gname(0)), (3, gname(2))] { let n = noise(i); let _ = MutableDataset::insert(d, &n[0], &n[1], &n[2], gn.as_ref()); } }
+        Aux { fast, light, bset: g.iter().cloned().collect(), hset: g.iter().cloned().collect(), ds_named, ds_default, ds_spread, ds_partial }
+    }
+}
+// Rio's model for the strictly representable, quoted-triple-free part of a graph
+fn rio_lit<'a>(t: &'a ST) -> Option<rm::Literal<'a>> {
+    match t {
+        SimpleTerm::LiteralDatatype(l, d) => Some(if d.as_str() == format!("{XSD}string") { rm::Literal::Simple { value: l } } else { rm::Literal::Typed { value: l, datatype: rm::NamedNode { iri: d.as_str() } } }),
+        SimpleTerm::LiteralLanguage(l, tag) => Some(rm::Literal::LanguageTaggedString { value: l, language: tag.as_str() }), _ => None }
+}
+fn rio_subject<'a>(t: &'a ST) -> Option<rm::Subject<'a>> { match t { SimpleTerm::Iri(i) => Some(rm::Subject::NamedNode(rm::NamedNode { iri: i.as_str() })), SimpleTerm::BlankNode(b) => Some(rm::Subject::BlankNode(rm::BlankNode { id: b.as_str() })), _ => None } }
+fn rio_pred<'a>(t: &'a ST) -> Option<rm::NamedNode<'a>> { match t { SimpleTerm::Iri(i) => Some(rm::NamedNode { iri: i.as_str() }), _ => None } }
+fn rio_object<'a>(t: &'a ST) -> Option<rm::Term<'a>> { match t { SimpleTerm::Iri(i) => Some(rm::Term::NamedNode(rm::NamedNode { iri: i.as_str() })), SimpleTerm::BlankNode(b) => Some(rm::Term::BlankNode(rm::BlankNode { id: b.as_str() })), x => Some(rm::Term::Literal(rio_lit(x)?)) } }
+fn rio_triple<'a>(t: &'a T3) -> Option<rm::Triple<'a>> { Some(rm::Triple { subject: rio_subject(&t[0])?, predicate: rio_pred(&t[1])?, object: rio_object(&t[2])? }) }
+fn rio_gterm<'a>(t: &'a ST) -> Option<rm::GeneralizedTerm<'a>> {
+    Some(match t { SimpleTerm::Iri(i) => rm::GeneralizedTerm::NamedNode(rm::NamedNode { iri: i.as_str() }), SimpleTerm::BlankNode(b) => rm::GeneralizedTerm::BlankNode(rm::BlankNode { id: b.as_str() }),
+        SimpleTerm::Variable(v) => rm::GeneralizedTerm::Variable(rm::Variable { name: v.as_str() }), SimpleTerm::Triple(_) => return None, x => rm::GeneralizedTerm::Literal(rio_lit(x)?) })
+}
+fn quoted_of(x: &ST) -> Option<&T3> { if let SimpleTerm::Triple(q) = x { Some(&**q) } else { None } }
+/// which triples of g Rio's strict / generalized model can hold (quoted triples one level deep), with the
+/// quoted triples collected first so that they can be referenced: (index in g, inner index per position)
+fn rio_gtriple<'a>(q: &'a T3) -> Option<[rm::GeneralizedTerm<'a>; 3]> { Some([rio_gterm(&q[0])?, rio_gterm(&q[1])?, rio_gterm(&q[2])?]) }
+fn star_plan<'a, X>(g: &'a [T3], positions: &[usize], conv: &dyn Fn(&'a T3) -> Option<X>, flat_ok: &dyn Fn(&ST, usize) -> bool) -> (Vec<X>, Vec<(usize, [Option<usize>; 3])>) {
+    let mut inner = vec![]; let mut plan = vec![];
+    'next: for (i, t) in g.iter().enumerate() {
+        let mut idx = [None, None, None];
+        for pos in 0..3 { match quoted_of(&t[pos]) { Some(q) => { if !positions.contains(&pos) { continue 'next; } match conv(q) { Some(x) => { inner.push(x); idx[pos] = Some(inner.len() - 1); } None => continue 'next } } None => if !flat_ok(&t[pos], pos) { continue 'next; } } }
+        plan.push((i, idx));
+    }
+    (inner, plan)
+}
+
+const FEEDS: [(usize, &str); 33] = [
+    (0, "serialize_triples(vec.triples())"), (1, "serialize_triples(&mut vec.triples())"), (2, "serialize_triples(iterator of owned triples .into_source())"),
+    (3, "serialize_triples(iterator of Ok([&term; 3]))"), (4, "serialize_triples(slice.triples())"), (5, "serialize_triples(vec.triples().filter_triples(|_| true))"),
+    (6, "serialize_triples(vec.triples().map_triples(rebuild))"), (7, "serialize_triples(vec.triples().filter_triples(every other triple))"),
+    (8, "serialize_triples(FastGraph.triples())"), (9, "serialize_triples(LightGraph.triples())"), (10, "serialize_triples(BTreeSet.triples())"), (11, "serialize_triples(HashSet.triples())"),
+    (12, "serialize_triples(source of Trusted<rio Triple>)"), (13, "serialize_triples(source of [Trusted<rio GeneralizedTerm>; 3])"), (14, "serialize_triples(RDF/XML parser over the baseline document)"),
+    (15, "serialize_triples(dataset.quads().to_triples())"), (16, "serialize_triples(vec.triples().filter_map_triples(Some))"),
+    (20, "serialize_graph(&Vec)"), (21, "serialize_graph(&&Vec)"), (22, "serialize_graph(&&[T])"), (23, "serialize_graph(&&mut Vec)"),
+    (24, "serialize_graph(&FastGraph)"), (25, "serialize_graph(&LightGraph)"), (26, "serialize_graph(&BTreeSet)"), (27, "serialize_graph(&HashSet)"),
+    (28, "serialize_graph(&vec_dataset.graph(Some(name)))"), (29, "serialize_graph(&FastDataset.graph(None))"), (30, "serialize_graph(&vec_dataset.union_graph())"),
+    (31, "serialize_graph(&LightDataset.partial_union_graph([names]))"), (32, "serialize_graph(&vec.as_dataset().union_graph())"), (33, "serialize_graph(&vec_dataset.into_union_graph())"),
+    (34, "serialize_graph(&vec.into_dataset().graph(None))"), (35, "serialize_graph(&&FastGraph)"),
+];
+/// feeds whose sequence of triples is by construction `g` itself, or a listing of the same set
+fn feed_name(k: usize) -> &'static str { FEEDS.iter().find(|f| f.0 == k).map_or("?", |f| f.1) }
+fn feed<W: Write>(ser: &mut RdfXmlSerializer<W>, k: usize, g: &Vec<T3>, aux: &Aux, base_doc: Option<&str>) -> Option<FeedRes> {
+    Some(match k {
+        0 => (g.clone(), se(ser.serialize_triples(g.triples()))),
+        1 => { let mut it = g.triples(); (g.clone(), se(ser.serialize_triples(&mut it))) }
+        2 => (g.clone(), se(ser.serialize_triples(g.iter().cloned().into_source()))),
+        3 => (g.clone(), se(ser.serialize_triples(g.iter().map(|t| Ok::<_, Infallible>([&t[0], &t[1], &t[2]]))))),
+        4 => (g.clone(), se(ser.serialize_triples(g[..].triples()))),
+        5 => (g.clone(), se(ser.serialize_triples(g.triples().filter_triples(|_| true)))),
+        6 => (g.clone(), se(ser.serialize_triples(g.triples().map_triples(|t| st3(t))))),
+        7 => { let mut i = 0usize; let fed: Vec<T3> = g.iter().step_by(2).cloned().collect(); (fed, se(ser.serialize_triples(g.triples().filter_triples(move |_| { i += 1; i % 2 == 1 })))) }
+        8 => { let c = aux.fast.as_ref()?; (listing(c), se(ser.serialize_triples(c.triples()))) }
+        9 => { let c = aux.light.as_ref()?; (listing(c), se(ser.serialize_triples(c.triples()))) }
+        10 => (listing(&aux.bset), se(ser.serialize_triples(aux.bset.triples()))),
+        11 => (listing(&aux.hset), se(ser.serialize_triples(aux.hset.triples()))),
+        12 => { let (inner, plan) = star_plan(g, &[0, 2], &rio_triple, &|x, pos| match pos { 0 => rio_subject(x).is_some(), 1 => rio_pred(x).is_some(), _ => rio_object(x).is_some() });
+                let fed: Vec<T3> = plan.iter().map(|p| g[p.0].clone()).collect();
+                let rt: Vec<rm::Triple> = plan.iter().map(|(i, idx)| { let t = &g[*i]; rm::Triple { subject: match idx[0] { Some(k) => rm::Subject::Triple(&inner[k]), None => rio_subject(&t[0]).unwrap() }, predicate: rio_pred(&t[1]).unwrap(), object: match idx[2] { Some(k) => rm::Term::Triple(&inner[k]), None => rio_object(&t[2]).unwrap() } } }).collect();
+                let r = se(ser.serialize_triples(rt.iter().map(|t| Ok::<_, Infallible>(Trusted(*t))))); (fed, r) }
+        13 => { let (inner, plan) = star_plan(g, &[0, 1, 2], &rio_gtriple, &|x, _| rio_gterm(x).is_some());
+                let fed: Vec<T3> = plan.iter().map(|p| g[p.0].clone()).collect();
+                let gt: Vec<[rm::GeneralizedTerm; 3]> = plan.iter().map(|(i, idx)| { let t = &g[*i]; [0, 1, 2].map(|pos| match idx[pos] { Some(k) => rm::GeneralizedTerm::Triple(&inner[k]), None => rio_gterm(&t[pos]).unwrap() }) }).collect();
+                let r = se(ser.serialize_triples(gt.iter().map(|t| Ok::<_, Infallible>([Trusted(t[0]), Trusted(t[1]), Trusted(t[2])])))); (fed, r) }
+        14 => { let d = base_doc?; let fed: Vec<T3> = sophia_xml::parser::parse_str(d).collect_triples().ok()?; (fed, se(ser.serialize_triples(sophia_xml::parser::parse_str(d)))) }
+        15 => (aux.ds_spread.iter().map(|q| q.0.clone()).collect(), se(ser.serialize_triples(aux.ds_spread.quads().to_triples()))),
+        16 => (g.clone(), se(ser.serialize_triples(g.triples().filter_map_triples(Some)))),
+        20 => (listing(g), se(ser.serialize_graph(g))),
+        21 => { let r = &g; (listing(&r), se(ser.serialize_graph(&r))) }
+        22 => { let r = &g[..]; (listing(&r), se(ser.serialize_graph(&r))) }
+        23 => { let mut c = g.clone(); let r = &mut c; let l = listing(&r); (l, se(ser.serialize_graph(&r))) }
+        24 => { let c = aux.fast.as_ref()?; (listing(c), se(ser.serialize_graph(c))) }
+        25 => { let c = aux.light.as_ref()?; (listing(c), se(ser.serialize_graph(c))) }
+        26 => (listing(&aux.bset), se(ser.serialize_graph(&aux.bset))),
+        27 => (listing(&aux.hset), se(ser.serialize_graph(&aux.hset))),
+        28 => { let v = aux.ds_named.graph(gname(1)); (listing(&v), se(ser.serialize_graph(&v))) }
+        29 => { let d = aux.ds_default.as_ref()?; let v = d.graph(None::<ST>); (listing(&v), se(ser.serialize_graph(&v))) }
+        30 => { let v = aux.ds_spread.union_graph(); (listing(&v), se(ser.serialize_graph(&v))) }
+        31 => { let d = aux.ds_partial.as_ref()?; let (n1, n3) = (gname(1), gname(3)); let v = d.partial_union_graph([n1.as_ref(), n3.as_ref()]); (listing(&v), se(ser.serialize_graph(&v))) }
+        32 => { let d = g.as_dataset(); let v = d.union_graph(); (listing(&v), se(ser.serialize_graph(&v))) }
+        33 => { let v = aux.ds_spread.clone().into_union_graph(); (listing(&v), se(ser.serialize_graph(&v))) }
+        34 => { let d = g.clone().into_dataset(); let v = d.graph(None::<ST>); (listing(&v), se(ser.serialize_graph(&v))) }
+        35 => { let c = aux.fast.as_ref()?; let r = &c; (listing(&r), se(ser.serialize_graph(&r))) }
+        _ => return None,
+    })
+}
+/// every way of building the configuration
+fn cfg_variant(ind: usize, v: usize) -> RdfXmlConfig {
+    match v % 5 { 0 => RdfXmlConfig::new().with_indentation(ind), 1 => RdfXmlConfig::default().with_indentation(ind), 2 => RdfXmlConfig::new().with_indentation(ind + 3).with_indentation(ind),
+        3 => { let c = RdfXmlConfig::new().with_indentation(ind); let d = c.clone(); drop(c); d } _ => if ind == 0 { RdfXmlConfig::default() } else { RdfXmlConfig::new().with_indentation(0).with_indentation(ind) } }
+}
+struct Run { name: String, ind: usize, fed: Vec<T3>, out: Ser }
+fn out_of(r: Result<(), (EK, String)>, bytes: &[u8], notes: &mut Vec<String>, name: &str) -> Ser {
+    match r { Err((_, e)) => Ser::Err(e), Ok(()) => match std::str::from_utf8(bytes) { Ok(s) => Ser::Doc(s.to_string()), Err(_) => { notes.push(format!("{name}: the bytes written are not UTF-8")); Ser::Doc(String::from_utf8_lossy(bytes).to_string()) } } }
+}
+/// through the Stringifier (RdfXmlSerializer<Vec<u8>>), built in every possible way
+fn via_stringifier(ind: usize, v: usize, k: usize, g: &Vec<T3>, aux: &Aux, base_doc: Option<&str>, notes: &mut Vec<String>) -> Option<Run> {
+    let name = format!("{} on a stringifier (construction {})", feed_name(k), v % 5);
+    let mut n2 = vec![];
+    let r = quiet(|| {
+        let cfg = cfg_variant(ind, v);
+        if cfg.indentation() != ind { n2.push(format!("RdfXmlConfig::indentation() = {} after with_indentation({ind}) (construction {})", cfg.indentation(), v % 5)); }
+        let mut ser = match (v / 5) % 2 { 0 => RdfXmlSerializer::new_stringifier_with_config(cfg), _ => if ind == 0 && v % 2 == 0 { if v % 4 == 0 { RdfXmlSerializer::new_stringifier() } else { RdfXmlSerializer::new(Vec::new()) } } else { RdfXmlSerializer::new_with_config(Vec::new(), cfg) } };
+        if ser.config().indentation() != ind { n2.push(format!("serializer.config().indentation() = {} instead of {ind}", ser.config().indentation())); }
+        let (fed, r) = feed(&mut ser, k, g, aux, base_doc)?;
+        let s = Stringifier::to_string(&ser);
+        if ser.as_str() != s || ser.as_utf8() != s.as_bytes() { n2.push(format!("{name}: to_string / as_str / as_utf8 disagree")); }
+        Some((fed, match r { Ok(()) => Ser::Doc(s), Err((_, e)) => Ser::Err(e) }))
+    });
+    notes.extend(n2);
+    match r { Ok(Some((fed, out))) => Some(Run { name, ind, fed, out }), Ok(None) => None, Err(_) => Some(Run { name, ind, fed: g.clone(), out: Ser::Panic }) }
+}
+/// writers with short writes, interruptions, a byte limit
+struct Trickle<'a> { inner: &'a mut Vec<u8>, step: usize }
+impl Write for Trickle<'_> { fn write(&mut self, b: &[u8]) -> io::Result<usize> { let n = b.len().min(self.step); self.inner.extend_from_slice(&b[..n]); Ok(n) } fn flush(&mut self) -> io::Result<()> { Ok(()) } }
+struct Hiccup<'a> { inner: &'a mut Vec<u8>, calls: usize }
+impl Write for Hiccup<'_> { fn write(&mut self, b: &[u8]) -> io::Result<usize> { self.calls += 1; if self.calls % 3 == 0 { return Err(io::Error::new(io::ErrorKind::Interrupted, "interrupted")); } let n = b.len().min(4); self.inner.extend_from_slice(&b[..n]); Ok(n) } fn flush(&mut self) -> io::Result<()> { Ok(()) } }
+struct Limited<'a> { inner: &'a mut Vec<u8>, left: usize, zero: bool }
+impl Write for Limited<'_> { fn write(&mut self, b: &[u8]) -> io::Result<usize> { if self.left == 0 && !b.is_empty() { return if self.zero { Ok(0) } else { Err(io::Error::new(io::ErrorKind::Other, "device full")) }; } let n = b.len().min(self.left); self.left -= n; self.inner.extend_from_slice(&b[..n]); Ok(n) } fn flush(&mut self) -> io::Result<()> { Ok(()) } }
+const WRITERS: [&str; 7] = ["RdfXmlSerializer<&mut Vec<u8>>", "a BufWriter of capacity 5", "a Cursor", "a writer taking 1..3 bytes per call", "a writer that is interrupted every third call", "a boxed writer", "RdfXmlSerializer::new(Vec) moved in"];
+fn via_writer(wk: usize, ind: usize, v: usize, k: usize, g: &Vec<T3>, aux: &Aux, base_doc: Option<&str>, notes: &mut Vec<String>) -> Option<Run> {
+    let name = format!("{} writing to {}", feed_name(k), WRITERS[wk]);
+    let mut n2 = vec![];
+    let r = quiet(|| {
+        let cfg = cfg_variant(ind, v); let mut buf: Vec<u8> = vec![];
+        let (fed, r) = match wk {
+            0 => { let mut ser = RdfXmlSerializer::new_with_config(&mut buf, cfg); feed(&mut ser, k, g, aux, base_doc)? }
+            1 => { let mut w = io::BufWriter::with_capacity(5, &mut buf); let fr = { let dw: &mut dyn Write = &mut w; let mut ser = RdfXmlSerializer::new_with_config(dw, cfg); feed(&mut ser, k, g, aux, base_doc)? }; if w.flush().is_err() { n2.push(format!("{name}: flush failed")); } drop(w); fr }
+            2 => { let mut w = io::Cursor::new(&mut buf); let dw: &mut dyn Write = &mut w; let mut ser = RdfXmlSerializer::new_with_config(dw, cfg); feed(&mut ser, k, g, aux, base_doc)? }
+            3 => { let mut w = Trickle { inner: &mut buf, step: 1 + (v + ind) % 3 }; let dw: &mut dyn Write = &mut w; let mut ser = RdfXmlSerializer::new_with_config(dw, cfg); feed(&mut ser, k, g, aux, base_doc)? }
+            4 => { let mut w = Hiccup { inner: &mut buf, calls: 0 }; let dw: &mut dyn Write = &mut w; let mut ser = RdfXmlSerializer::new_with_config(dw, cfg); feed(&mut ser, k, g, aux, base_doc)? }
+            5 => { let w: Box<dyn Write + '_> = Box::new(Trickle { inner: &mut buf, step: 64 }); let mut ser = RdfXmlSerializer::new_with_config(w, cfg); feed(&mut ser, k, g, aux, base_doc)? }
+            _ => { let mut ser = if ind == 0 { RdfXmlSerializer::new(Vec::new()) } else { RdfXmlSerializer::new_with_config(Vec::new(), cfg) }; let fr = feed(&mut ser, k, g, aux, base_doc)?; buf = ser.as_utf8().to_vec(); fr }
+        };
+        let out = out_of(r, &buf, &mut n2, &name);
+        Some((fed, out))
+    });
+    notes.extend(n2);
+    match r { Ok(Some((fed, out))) => Some(Run { name, ind, fed, out }), Ok(None) => None, Err(_) => Some(Run { name, ind, fed: g.clone(), out: Ser::Panic }) }
+}
+/// a writer that accepts `limit` bytes: Ok iff the whole document fits, and what was accepted is a prefix of it
+fn via_limited(ind: usize, k: usize, limit: usize, zero: bool, g: &Vec<T3>, aux: &Aux) -> Option<(bool, Vec<u8>)> {
+    quiet(|| { let mut buf = vec![]; let ok = { let mut w = Limited { inner: &mut buf, left: limit, zero }; let dw: &mut dyn Write = &mut w; let mut ser = RdfXmlSerializer::new_with_config(dw, RdfXmlConfig::new().with_indentation(ind)); feed(&mut ser, k, g, aux, None)?.1.is_ok() }; Some((ok, buf)) }).ok().flatten()
+}
+/// several calls on ONE stringifier: (feed, graph) in turn; the bytes appended by each call and its outcome
+fn via_calls(ind: usize, calls: &[(usize, &Vec<T3>, &Aux)]) -> Option<(Vec<(Vec<T3>, Ser)>, String)> {
+    quiet(|| {
+        let mut ser = RdfXmlSerializer::new_stringifier_with_config(RdfXmlConfig::new().with_indentation(ind)); let mut out = vec![];
+        for (k, g, aux) in calls { let before = ser.as_utf8().len(); let (fed, r) = feed(&mut ser, *k, g, aux, None)?; let seg = String::from_utf8_lossy(&ser.as_utf8()[before..]).to_string(); out.push((fed, match r { Ok(()) => Ser::Doc(seg), Err((_, e)) => Ser::Err(e) })); }
+        // chaining through the returned `&mut Self`
+        Some((out, Stringifier::to_string(&ser)))
+    }).ok().flatten()
+}
+/// `a.serialize_x(..)?.serialize_y(..)?` on one stringifier, through the returned reference
+fn via_chain(ind: usize, g: &Vec<T3>, g2: &Vec<T3>) -> Option<Result<String, String>> {
+    quiet(|| { let mut ser = RdfXmlSerializer::new_stringifier_with_config(RdfXmlConfig::new().with_indentation(ind));
+        let r = (|| -> Result<String, String> { Ok(ser.serialize_graph(g).map_err(|e| e.to_string())?.serialize_triples(g2.triples()).map_err(|e| e.to_string())?.serialize_graph(&&g[..]).map_err(|e| e.to_string())?.to_string()) })(); r }).ok()
+}
+
+// the parser, driven in every public way; `p0` = parse_str(doc).collect_triples::<Vec<_>>()
+fn rebuild<T: Term>(t: T) -> Option<ST> {
+    // every accessor that does not belong to the term's kind answers None, every predicate agrees with kind()
+    let have = [t.iri().is_some(), t.bnode_id().is_some(), t.lexical_form().is_some(), t.datatype().is_some(), t.variable().is_some(), t.triple().is_some()];
+    let k = t.kind();
+    let want = match k { TermKind::Iri => [true, false, false, false, false, false], TermKind::BlankNode => [false, true, false, false, false, false], TermKind::Literal => [false, false, true, true, false, false], TermKind::Variable => [false, false, false, false, true, false], TermKind::Triple => [false, false, false, false, false, true] };
+    if have != want || (t.language_tag().is_some() && k != TermKind::Literal) { return None; }
+    if [t.is_iri(), t.is_blank_node(), t.is_literal(), t.is_variable(), t.is_triple()] != [k == TermKind::Iri, k == TermKind::BlankNode, k == TermKind::Literal, k == TermKind::Variable, k == TermKind::Triple] { return None; }
+    Some(match k {
+        TermKind::Iri => iri(t.iri()?.as_str()),
+        TermKind::BlankNode => bnode(t.bnode_id()?.as_str()),
+        TermKind::Literal => { let lex = t.lexical_form()?.to_string(); let dt = t.datatype()?;
+            match t.language_tag() { Some(tag) => { if dt.as_str() != format!("{RDF}langString") { return None; } lit_lang(&lex, tag.as_str()) } None => lit_dt(&lex, dt.as_str()) } }
+        TermKind::Variable => var(t.variable()?.as_str()),
+        TermKind::Triple => { let [s, p, o] = t.triple()?; triple(rebuild(s)?, rebuild(p)?, rebuild(o)?) }
+    })
+}
+fn parser_paths(doc: &str, p0: &Result<Vec<T3>, String>, salt: usize) -> Vec<String> {
+    let mut fails = vec![];
+    let mut cmp = |name: &str, r: Result<Vec<T3>, String>, as_set: bool| {
+        let same = match (p0, &r) { (Ok(a), Ok(b)) => if as_set { set_key(a) == set_key(b) } else { exact(a, b) }, (Err(_), Err(_)) => true, _ => false };
+        if !same { fails.push(format!("{name} gives {r:?} where parse_str(..).collect_triples::<Vec<_>>() gives {p0:?}")); }
+    };
+    let q = |f: &mut dyn FnMut() -> Result<Vec<T3>, String>| -> Result<Vec<T3>, String> { match quiet(|| f()) { Ok(r) => r, Err(_) => Err("PANIC".into()) } };
+    cmp("parse_bufread(bytes)", q(&mut || sophia_xml::parser::parse_bufread(doc.as_bytes()).collect_triples::<Vec<T3>>().map_err(|e| e.to_string())), false);
+    cmp("RdfXmlParser::default().parse_str", q(&mut || RdfXmlParser::default().parse_str(doc).collect_triples::<Vec<T3>>().map_err(|e| e.to_string())), false);
+    cmp("RdfXmlParser { base: None }.parse(BufReader of capacity 3)", q(&mut || RdfXmlParser { base: None }.parse(io::BufReader::with_capacity(3 + salt % 5, doc.as_bytes())).collect_triples::<Vec<T3>>().map_err(|e| e.to_string())), false);
+    cmp("RdfXmlParser { base: Some(..) }.parse_str (absolute IRIs only)", q(&mut || RdfXmlParser { base: Some(Iri::new_unchecked("http://base.example/dir/file?q#f".to_string())) }.parse_str(doc).collect_triples::<Vec<T3>>().map_err(|e| e.to_string())), false);
+    cmp("collect_triples::<FastGraph>", q(&mut || sophia_xml::parser::parse_str(doc).collect_triples::<FastGraph>().map(|g| listing(&g)).map_err(|e| e.to_string())), true);
+    cmp("collect_triples::<LightGraph>", q(&mut || sophia_xml::parser::parse_str(doc).collect_triples::<LightGraph>().map(|g| listing(&g)).map_err(|e| e.to_string())), true);
+    cmp("collect_triples::<HashSet<[SimpleTerm; 3]>>", q(&mut || sophia_xml::parser::parse_str(doc).collect_triples::<HashSet<T3>>().map(|g| listing(&g)).map_err(|e| e.to_string())), true);
+    cmp("add_to_graph(&mut Vec)", q(&mut || { let mut v: Vec<T3> = vec![]; let n = sophia_xml::parser::parse_str(doc).add_to_graph(&mut v).map_err(|e| e.to_string())?; if n != v.len() { return Err(format!("add_to_graph returned {n} for {} triples", v.len())); } Ok(v) }), false);
+    cmp("for_each_triple + Term accessors (kind/iri/bnode_id/lexical_form/datatype/language_tag) on s(), p(), o()", q(&mut || { let mut v = vec![]; let mut bad = false; sophia_xml::parser::parse_str(doc).for_each_triple(|t| { match (rebuild(t.s()), rebuild(t.p()), rebuild(t.o())) { (Some(s), Some(p), Some(o)) => v.push([s, p, o]), _ => bad = true } }).map_err(|e| e.to_string())?; if bad { Err("inconsistent Term accessors".into()) } else { Ok(v) } }), false);
+    cmp("for_each_triple + to_spo()", q(&mut || { let mut v = vec![]; let mut bad = false; sophia_xml::parser::parse_str(doc).for_each_triple(|t| { let [s, p, o] = t.to_spo(); match (rebuild(s), rebuild(p), rebuild(o)) { (Some(s), Some(p), Some(o)) => v.push([s, p, o]), _ => bad = true } }).map_err(|e| e.to_string())?; if bad { Err("inconsistent Term accessors".into()) } else { Ok(v) } }), false);
+    cmp("for_each_triple + to_s()/to_p()/to_o()", q(&mut || { let mut v: Vec<T3> = vec![]; sophia_xml::parser::parse_str(doc).for_each_triple(|t| { v.push([t.to_s().into_term(), t.to_p().into_term(), t.to_o().into_term()]) }).map_err(|e| e.to_string())?; Ok(v) }), false);
+    cmp("try_for_some_triple, one step at a time", q(&mut || { let mut v: Vec<T3> = vec![]; let mut src = sophia_xml::parser::parse_str(doc); loop { match src.try_for_some_triple(|t| -> Result<(), Infallible> { v.push(st3(t)); Ok(()) }) { Ok(true) => {} Ok(false) => break, Err(e) => return Err(e.to_string()) } if v.len() > 10_000 { return Err("does not end".into()); } } Ok(v) }), false);
+    cmp("filter_triples(|_| true).map_triples(..).collect_triples", q(&mut || sophia_xml::parser::parse_str(doc).filter_triples(|_| true).map_triples(|t| st3(t)).collect_triples::<Vec<T3>>().map_err(|e| e.to_string())), false);
+    // a failing consumer: the error it raised comes back as the sink error, after exactly `stop` triples
+    if let Ok(a) = p0 { if !a.is_empty() {
+        let stop = salt % (a.len() + 1); let mut n = 0u64;
+        let r = quiet(|| sophia_xml::parser::parse_str(doc).try_for_each_triple(|_| { if n as usize == stop { Err(MyErr(n)) } else { n += 1; Ok(()) } }));
+        let good = match &r { Ok(Ok(())) => stop == a.len(), Ok(Err(StreamError::SinkError(e))) => stop < a.len() && *e == MyErr(stop as u64), _ => false };
+        if !good { fails.push(format!("a consumer failing at triple {stop} of {}: try_for_each_triple returned {:?}", a.len(), r.map(|x| x.map_err(|e| e.to_string())).unwrap_or(Err("PANIC".into())))); }
+    } }
+    fails
+}
+/// the Rio-side adapter: a Rio term wrapped in Trusted is the sophia term
+fn trusted_adapter_fails(t: &ST) -> Vec<String> {
+    let mut fails = vec![];
+    let want = format!("{t:?}");
+    fn chk<X: Term + Copy>(x: X, want: &str, what: &str, fails: &mut Vec<String>) {
+        let a = rebuild(x).map(|r| format!("{r:?}")); let b = format!("{:?}", x.into_term::<ST>()); let c = rebuild(x.borrow_term()).map(|r| format!("{r:?}"));
+        if a.as_deref() != Some(want) || b != want || c.as_deref() != Some(want) { fails.push(format!("{what}: accessors give {a:?}, into_term gives {b}, expected {want}")); }
+    }
+    match t {
+        SimpleTerm::Iri(i) => { let n = rm::NamedNode { iri: i.as_str() }; chk(Trusted(n), &want, "Trusted<NamedNode>", &mut fails); chk(Trusted(rm::Term::NamedNode(n)), &want, "Trusted<Term>", &mut fails); chk(Trusted(rm::GeneralizedTerm::NamedNode(n)), &want, "Trusted<GeneralizedTerm>", &mut fails); chk(Trusted(rm::GraphName::NamedNode(n)), &want, "Trusted<GraphName>", &mut fails); }
+        SimpleTerm::BlankNode(b) => { let n = rm::BlankNode { id: b.as_str() }; chk(Trusted(n), &want, "Trusted<BlankNode>", &mut fails); chk(Trusted(rm::Term::BlankNode(n)), &want, "Trusted<Term>", &mut fails); chk(Trusted(rm::GeneralizedTerm::BlankNode(n)), &want, "Trusted<GeneralizedTerm>", &mut fails); chk(Trusted(rm::GraphName::BlankNode(n)), &want, "Trusted<GraphName>", &mut fails); }
+        SimpleTerm::Variable(v) => { let n = rm::Variable { name: v.as_str() }; chk(Trusted(n), &want, "Trusted<Variable>", &mut fails); chk(Trusted(rm::GeneralizedTerm::Variable(n)), &want, "Trusted<GeneralizedTerm>", &mut fails); }
+        SimpleTerm::Triple(q) => {
+            if let Some(rt) = rio_triple(q) { chk(Trusted(rm::Term::Triple(&rt)), &want, "Trusted<Term> (quoted triple)", &mut fails); }
+            if let (Some(a), Some(b), Some(c)) = (rio_gterm(&q[0]), rio_gterm(&q[1]), rio_gterm(&q[2])) { let arr = [a, b, c]; chk(Trusted(rm::GeneralizedTerm::Triple(&arr)), &want, "Trusted<GeneralizedTerm> (quoted triple)", &mut fails); }
+        }
+        x => if let Some(l) = rio_lit(x) { chk(Trusted(l), &want, "Trusted<Literal>", &mut fails); chk(Trusted(rm::Term::Literal(l)), &want, "Trusted<Term>", &mut fails); chk(Trusted(rm::GeneralizedTerm::Literal(l)), &want, "Trusted<GeneralizedTerm>", &mut fails); }
+    }
+    fails
+}
+
+// ---------------------------------------------------------------------------------------------
 // Coq printing
 // ---------------------------------------------------------------------------------------------
 fn c_t3(t: &T3) -> String { format!("({}, {}, {})", coq_term(&t[0]), coq_term(&t[1]), coq_term(&t[2])) }
@@ -276,13 +570,52 @@ fn gen_lit(r: &mut Rng) -> ST {
 }
 fn gen_obj(r: &mut Rng) -> ST { if r.chance(3, 5) { gen_lit(r) } else { gen_node(r) } }
 
+/// the triples RDF/XML can express, and whether the graph is in the class where success without loss is promised
+fn classify(fed: &[T3]) -> (Vec<T3>, bool) {
+    let expected: Vec<T3> = fed.iter().filter(|t| representable(t)).cloned().collect();
+    let quoted = fed.iter().any(has_quoted);
+    let text_legal = expected.iter().all(|t| lex_of(&t[2]).map_or(true, |l| l.chars().all(is_xml_char)));
+    let preds_ok = expected.iter().all(|t| { let p = t[1].iri().unwrap(); let p = p.as_str(); !ncname_suffix(p).is_empty() && !RESERVED.iter().any(|l| p == format!("{RDF}{l}")) });
+    (expected, !quoted && text_legal && preds_ok)
+}
+type Parses = (Result<Vec<T3>, String>, Result<Vec<T3>, String>);
+fn parses<'a>(cache: &'a mut HashMap<String, Parses>, d: &str) -> &'a Parses { if !cache.contains_key(d) { cache.insert(d.to_string(), (rio_read(d), ref_read(d))); } &cache[d] }
+/// the round-trip oracle on one outcome: (kind of finding, detail).
+/// `known` = apply the three recorded third-party deviations EXACTLY instead of reporting them again (they are reported,
+/// under their own heads, by the baseline run of the flavours that contain them): rio_xml's reader returns "" for a
+/// whitespace-only literal and rejects tags that are not BCP47; a conformant XML reader turns CR / CR LF into LF.
+fn judge(out: &Ser, fed: &[T3], known: bool, cache: &mut HashMap<String, Parses>) -> Vec<(&'static str, String)> {
+    let (expected, in_class) = classify(fed); let mut f = vec![];
+    let relit = |t: &T3, h: &dyn Fn(&str) -> String| -> T3 { let o = match &t[2] { SimpleTerm::LiteralDatatype(l, d) => lit_dt(&h(l), d.as_str()), SimpleTerm::LiteralLanguage(l, tag) => lit_lang(&h(l), tag.as_str()), x => x.clone() }; [t[0].clone(), t[1].clone(), o] };
+    let exp_ws: Vec<T3> = expected.iter().map(|t| relit(t, &|l| if l.chars().all(is_xml_ws) { String::new() } else { l.to_string() })).collect();
+    let exp_cr: Vec<T3> = expected.iter().map(|t| relit(t, &|l| l.replace("\r\n", "\n").replace('\r', "\n"))).collect();
+    let bad_tag = expected.iter().any(|t| matches!(&t[2], SimpleTerm::LiteralLanguage(_, tag) if !bcp47_simple(tag.as_str())));
+    match out {
+        Ser::Panic => f.push(("panic", "the serializer panicked".to_string())),
+        Ser::Err(e) => if in_class { f.push(("failed-in-class", format!("serialisation failed inside the guaranteed class: {e}"))); },
+        Ser::Doc(d) => { let (pr, rr) = parses(cache, d);
+            match rr { Err(e) => f.push(("not-xml", format!("the document is not a well-formed namespace-conformant RDF/XML document: reference reader: {e}; document {d:?}"))),
+                Ok(back) => if !iso(&expected, back) && !(known && iso(&exp_cr, back)) { f.push(("ref-differs", format!("the document does not denote the graph (reference XML reader): read {back:?}, expected {expected:?}; document {d:?}"))); } }
+            match pr { Err(e) => if !(known && bad_tag) { f.push(("rio-rejects", format!("RdfXmlParser rejects the serialiser's output: {e}; document {d:?}"))) },
+                Ok(back) => if !iso(&expected, back) && !(known && iso(&exp_ws, back)) { f.push(("rio-differs", format!("RdfXmlParser reads back a different graph: read {back:?}, expected {expected:?}; document {d:?}"))); } } }
+    }
+    f
+}
+fn same_out(a: &Ser, b: &Ser) -> bool { match (a, b) { (Ser::Doc(x), Ser::Doc(y)) => x == y, (Ser::Err(x), Ser::Err(y)) => x == y, _ => false } }
+fn show(s: &Ser) -> String { match s { Ser::Doc(d) => format!("the document {d:?}"), Ser::Err(e) => format!("the error {e:?}"), Ser::Panic => "a panic".into() } }
+fn c_obs(s: &Ser, with_doc: bool) -> String {
+    match s { Ser::Doc(d) => if with_doc { format!("(ObsDoc {})", coq_str(d)) } else { "ObsSomeDoc".into() }, Ser::Err(e) if e.contains("named or blank subject") => "ObsErrSubj".into(), Ser::Err(e) if e.contains("named, blank or literal object") => "ObsErrObj".into(), Ser::Err(e) if e.contains("RDF/XML can not express") => "ObsErrInput".into(), _ => "ObsOther".into() }
+}
+
 fn main() {
     let a = parse_args();
     let default_hook = std::panic::take_hook();
     std::panic::set_hook(Box::new(move |info| { if !QUIET.load(Ordering::SeqCst) { default_hook(info) } }));
     let mut sum = Summary::default();
     sum.rule = "case = (A, 5 of 6) a graph of 0..5 triples (subjects IRI/blank with repeated and interleaved subjects; predicates from a list of namespace split points plus random paths; objects IRI/blank/literal with text over markup characters, whitespace runs, leading/trailing newlines, TAB, entity look-alikes, ]]>, non-BMP and boundary code points; language tags; datatypes incl. rdf:XMLLiteral), \
-of one flavour: clean, or exactly one kind of input outside a class (whitespace-only literal, blank node label starting with a digit, reserved rdf: name as predicate, predicate without NCName suffix, non-XML character, CR, non-BCP47 tag, generalised triple, quoted triple), serialised with every indentation 0..8; \
+of one flavour: clean, or exactly one kind of input outside a class (whitespace-only literal, blank node label starting with a digit, reserved rdf: name as predicate, predicate without NCName suffix, non-XML character, CR, non-BCP47 tag, generalised triple, quoted triple), serialised with every indentation 0..8 (and one of 9..64) through serialize_triples(vec.triples()) on a stringifier, and -- at indentation 0 and two random ones -- through EVERY other public entry point: \
+serialize_triples on 17 kinds of source (iterators, adapters, slice, set containers, in-memory graphs, Rio triples in Trusted, the RDF/XML parser, dataset quads), serialize_graph on 16 kinds of graph (Vec, references, slice, HashSet, BTreeSet, FastGraph, LightGraph, dataset views: graph(name), union, partial union, as_dataset), \
+every way of building the config / serializer, 7 kinds of writer (short writes, interruptions, buffered), a writer with a byte limit, four calls on one serializer, chaining; each judged by the same round-trip oracle and compared with the baseline; the parser driven in 14 ways on every document; \
 (B, 1 of 6) a raw element text and a raw attribute value (references, stray ampersands, CR/LF/TAB, non-XML characters) fed to the real parser and to the reference reader; \
 non-trivial = A: at least one representable triple and (a literal with a character that needs escaping or whitespace at an end, or a predicate not ending in a plain ASCII name after '/' or '#'), B: the raw string contains '&' or whitespace; distinct = distinct inputs".into();
     // Which serializer is under test?  The proposed repair (build/proposed/C18.diff) refuses text outside XML's Char
@@ -395,6 +728,84 @@ non-trivial = A: at least one representable triple and (a literal with a charact
             }
             if !matches!(s, Ser::Doc(_)) && matches!(runs[0].0, Ser::Doc(_)) { fails.push(format!("RDF/XML indentation changes the outcome: indentation 0 succeeded, indentation {ind} failed; {what}")); }
         }
+        // ---------------- every other public way of driving the serializer and the parser ----------------
+        let k1 = r.range(1, 8);   // the second indentation whose exact bytes go to Coq (drawn here, used below as well)
+        let mut rp = r.fork(0xC18);
+        let path_inds: Vec<usize> = { let k2 = rp.range(1, 8); let mut v = vec![0usize, k1]; if k2 != k1 { v.push(k2); } v };
+        let mut cache: HashMap<String, Parses> = HashMap::new();
+        for (s, pr, rr) in &runs { if let (Ser::Doc(d), Some(pr), Some(rr)) = (s, pr, rr) { cache.insert(d.clone(), (pr.clone(), rr.clone())); } }
+        let aux = Aux::new(&g); let g2: Vec<T3> = g.iter().rev().cloned().collect(); let aux2 = Aux::new(&g2);
+        let good: Vec<T3> = vec![[some_s.clone(), some_p.clone(), lit_dt("ok", &format!("{XSD}string"))], [bnode("7up"), some_p.clone(), some_s.clone()]]; let aux_good = Aux::new(&good);
+        let gset = set_key(&g);
+        let mut path_fails: Vec<String> = vec![];
+        let mut coq_alt: Vec<(usize, Vec<T3>, Ser)> = vec![];      // (indentation, fed, outcome) of stringifier runs whose order differs from g
+        let mut coq_calls: Vec<(usize, Vec<Vec<T3>>, Option<String>)> = vec![];
+        let mut coq_limited: Vec<(usize, usize, bool)> = vec![];
+        let mut n_runs = 0u64;
+        for t in g.iter().flat_map(|t| t.iter()) { for f in trusted_adapter_fails(t) { path_fails.push(format!("sophia_rio::model::Trusted adapter: {f}")); } }
+        for &ind in &path_inds {
+            let base = &runs[ind].0;
+            let base_doc = match base { Ser::Doc(d) => Some(d.as_str()), _ => None };
+            let mut all: Vec<Run> = vec![]; let mut notes: Vec<String> = vec![];
+            for (fi, (k, _)) in FEEDS.iter().enumerate() { if let Some(run) = via_stringifier(ind, idx + fi + ind, *k, &g, &aux, base_doc, &mut notes) { if !exact(&run.fed, &g) { coq_alt.push((ind, run.fed.clone(), match &run.out { Ser::Doc(d) => Ser::Doc(d.clone()), Ser::Err(e) => Ser::Err(e.clone()), Ser::Panic => Ser::Panic })); } all.push(run); } }
+            for wk in 0..WRITERS.len() { for k in [0usize, 20, FEEDS[rp.below(FEEDS.len())].0] { if let Some(run) = via_writer(wk, ind, rp.below(10), k, &g, &aux, base_doc, &mut notes) { all.push(run); } } }
+            // several calls on one serializer
+            let pickk = |rp: &mut Rng| -> usize { loop { let k = FEEDS[rp.below(FEEDS.len())].0; if k != 14 { return k; } } };
+            let calls = [(pickk(&mut rp), &g, &aux), (pickk(&mut rp), &g2, &aux2), (pickk(&mut rp), &good, &aux_good), (pickk(&mut rp), &g, &aux)];
+            match via_calls(ind, &calls) {
+                None => notes.push(format!("several calls on one serializer panicked ({:?})", calls.iter().map(|c| feed_name(c.0)).collect::<Vec<_>>())),
+                Some((segs, total)) => {
+                    let all_ok = segs.iter().all(|s| matches!(s.1, Ser::Doc(_)));
+                    if all_ok && total != segs.iter().map(|s| match &s.1 { Ser::Doc(d) => d.as_str(), _ => "" }).collect::<String>() { notes.push("the stringifier's content is not the concatenation of what the calls appended".into()); }
+                    coq_calls.push((ind, segs.iter().map(|s| s.0.clone()).collect(), if all_ok { Some(total) } else { None }));
+                    for (ci, (fed, out)) in segs.into_iter().enumerate() { all.push(Run { name: format!("call {} of 4 on one stringifier: {}", ci + 1, feed_name(calls[ci].0)), ind, fed, out }); }
+                }
+            }
+            let fresh2 = serialize(&g2, ind);
+            match (via_chain(ind, &g, &g2), base, &fresh2) {
+                (Some(Ok(t)), Ser::Doc(d1), Ser::Doc(d2)) => if t != format!("{d1}{d2}{d1}") { notes.push(format!("ser.serialize_graph(g)?.serialize_triples(g2)?.serialize_graph(g)? wrote {t:?}, not the three documents {d1:?} {d2:?} {d1:?}")); },
+                (Some(Err(_)), Ser::Err(_), _) | (Some(Err(_)), _, Ser::Err(_)) => {}
+                (x, _, _) => notes.push(format!("ser.serialize_graph(g)?.serialize_triples(g2)?.serialize_graph(g)? gives {x:?} whereas single calls give {} and {}", show(base), show(&fresh2))),
+            }
+            // a writer with a byte limit
+            let len = base_doc.map_or(40, |d| d.len()); let limit = rp.below(len + 3); let zero = rp.chance(1, 3);
+            for k in [0usize, 20, 24] {
+                match via_limited(ind, k, limit, zero, &g, &aux) {
+                    None => if k != 24 || aux.fast.is_some() { notes.push(format!("{} panicked on a writer limited to {limit} bytes", feed_name(k))); },
+                    Some((ok, bytes)) => {
+                        if k != 24 { let want = base_doc.is_some() && limit >= len; if ok != want { notes.push(format!("{} on a writer that accepts {limit} bytes returned {}, the document has {} bytes ({})", feed_name(k), if ok { "Ok" } else { "an error" }, len, show(base))); }
+                            if let Some(d) = base_doc { if !d.as_bytes().starts_with(&bytes) { notes.push(format!("{} on a writer that accepts {limit} bytes wrote {:?}, not a prefix of {d:?}", feed_name(k), String::from_utf8_lossy(&bytes))); } }
+                            if k == 0 { coq_limited.push((ind, limit, ok)); } }
+                        else if ok && base_doc.is_none() { notes.push(format!("{} on a limited writer returned Ok although {}", feed_name(k), show(base))); }
+                    }
+                }
+            }
+            // the oracle on every run
+            let mut by_fed: HashMap<String, (String, Ser)> = HashMap::new();
+            for run in all { n_runs += 1;
+                let Run { name, fed, out, .. } = run;
+                if exact(&fed, &g) { if !same_out(&out, base) { path_fails.push(format!("{name}, indentation {ind}, gives {} whereas serialize_triples(vec.triples()) on a stringifier gives {}", show(&out), show(base))); } continue; }
+                for (_, detail) in judge(&out, &fed, true, &mut cache) { path_fails.push(format!("{name}, indentation {ind}: {detail}; fed {fed:?}")); }
+                if set_key(&fed) == gset && matches!(out, Ser::Doc(_)) != matches!(base, Ser::Doc(_)) { path_fails.push(format!("{name}, indentation {ind}, gives {} whereas serialize_triples(vec.triples()) gives {} for the same set of triples", show(&out), show(base))); }
+                let key = format!("{fed:?}");
+                match by_fed.get(&key) { Some((n0, o0)) => if !same_out(o0, &out) { path_fails.push(format!("{name}, indentation {ind}, gives {} whereas {n0} gives {} for the same sequence of triples {fed:?}", show(&out), show(o0))); }, None => { by_fed.insert(key, (name, out)); } }
+            }
+            for n in notes { path_fails.push(format!("indentation {ind}: {n}")); }
+            // the parser, driven in every way, on the baseline document
+            if let (Ser::Doc(d), Some(pr)) = (&runs[ind].0, &runs[ind].1) { for f in parser_paths(d, pr, idx + ind) { path_fails.push(format!("parser entry points disagree on the document written with indentation {ind}: {f}; document {d:?}")); } }
+        }
+        // an indentation beyond 8
+        let kbig = 9 + rp.below(56); let big = serialize(&g, kbig);
+        match (&big, &runs[0].0, &runs[0].1, &runs[0].2) {
+            (Ser::Doc(d), Ser::Doc(_), Some(p0), Some(r0)) => { let (pb, rb) = parses(&mut cache, d); let eq = |a: &Result<Vec<T3>, String>, b: &Result<Vec<T3>, String>| match (a, b) { (Ok(x), Ok(y)) => exact(x, y), (Err(_), Err(_)) => true, _ => false };
+                if !eq(pb, p0) || !eq(rb, r0) { path_fails.push(format!("indentation {kbig} changes the parsed result: {pb:?} / {rb:?} instead of {p0:?} / {r0:?}; document {d:?}")); } }
+            (Ser::Err(_), Ser::Err(_), _, _) => {}
+            _ => path_fails.push(format!("indentation {kbig} changes the outcome: {} instead of {}", show(&big), show(&runs[0].0))),
+        }
+        sum.bump_by("paths:runs", n_runs);
+        if let Some(f) = path_fails.first() { let extra = path_fails.len() - 1; sum.bump("oracle:failing-case-entry-points");
+            sum.oracle_failures.push((idx.to_string(), if extra > 0 { format!("RDF/XML entry points: {f} (+{extra} more findings of this case over entry points and indentations); {what}") } else { format!("RDF/XML entry points: {f}; {what}") })); }
+        if verbose { for f in &path_fails { println!(" ORACLE (entry points): {f}"); } }
         if let Some(f) = fails.first() { let extra = fails.len() - 1; sum.oracle_failures.push((idx.to_string(), if extra > 0 { format!("{f} (+{extra} more findings of this case over indentations 0..8)") } else { f.clone() })); }
         // distribution
         sum.bump(&format!("flavour:{flavour:?}"));
@@ -409,7 +820,6 @@ non-trivial = A: at least one representable triple and (a literal with a charact
         if verbose { println!("CASE {idx}: {what}\n in_class={in_class} expected={expected:?}"); for (ind, (s, pr, rr)) in runs.iter().enumerate() { match s { Ser::Doc(d) => println!(" [{ind}] doc={d:?}\n      rio={pr:?}\n      ref={rr:?}"), Ser::Err(e) => println!(" [{ind}] error {e}"), Ser::Panic => println!(" [{ind}] PANIC") } } for f in &fails { println!(" ORACLE: {f}"); } }
         // Coq: the exact document for one indentation (0 on even cases, a random 1..8 on odd ones),
         // the outcome and both parses for both
-        let k1 = r.range(1, 8);
         let rio_modelled = flavour != Flavour::BadLang; // oxilangtag's validation is not modelled
         let node_out = |x: &ST| -> ST { match x { SimpleTerm::BlankNode(b) if guard && b.as_str().starts_with(|c: char| c.is_ascii_digit() || c == '_') => bnode(&format!("_{}", b.as_str())), _ => x.clone() } };
         let lower_tag = |t: &T3| -> T3 { let mut t = [node_out(&t[0]), t[1].clone(), node_out(&t[2])]; if let SimpleTerm::LiteralLanguage(l, tag) = &t[2] { t[2] = lit_lang(l, &tag.as_str().to_ascii_lowercase()); } t };
@@ -421,17 +831,27 @@ non-trivial = A: at least one representable triple and (a literal with a charact
         for ind in [0usize, k1] {
             let (s, pr, rr) = &runs[ind];
             let with_doc = (ind == 0) == (idx % 2 == 0);
-            let obs = match s { Ser::Doc(d) => if with_doc { format!("(ObsDoc {})", coq_str(d)) } else { "ObsSomeDoc".into() }, Ser::Err(e) if e.contains("named or blank subject") => "ObsErrSubj".into(), Ser::Err(e) if e.contains("named, blank or literal object") => "ObsErrObj".into(), Ser::Err(e) if e.contains("RDF/XML can not express") => "ObsErrInput".into(), _ => "ObsOther".into() };
+            let obs = c_obs(s, with_doc);
             parts.push(format!("ser_ok {cg} {ind} g {obs}"));
             if let (Some(pr), Some(rr)) = (pr, rr) {
                 if rio_modelled { parts.push(c_obs_parse(false, ind, pr)); }
                 parts.push(c_obs_parse(true, ind, rr));
             }
+            // the other entry points: every distinct sequence of triples that was fed, against the model on THAT sequence;
+            // when it lists the same set as g (set containers, views), the model also checks that it is such a listing
+            let mut seen_fed: HashSet<String> = HashSet::new(); let mut docs = 0;
+            for (i2, fed, out) in &coq_alt { if *i2 != ind || !seen_fed.insert(format!("{fed:?}")) { continue; }
+                let wd = with_doc && docs < 3; if wd { docs += 1; }
+                let nodup = set_key(fed).len() == fed.len();
+                if set_key(fed) == gset && nodup { parts.push(format!("path_ok CSet {cg} {ind} g {} {}", c_graph(fed), c_obs(out, wd))); } else { parts.push(format!("ser_ok {cg} {ind} {} {}", c_graph(fed), c_obs(out, wd))); } }
+            if with_doc { for (i2, feds, total) in &coq_calls { if *i2 == ind { parts.push(format!("calls_ok {cg} {ind} {} {}", coq_list(feds.iter().map(|f| c_graph(f))), c_optstr(total))); } } }
+            for (i2, limit, ok) in &coq_limited { if *i2 == ind { parts.push(format!("limited_ok {cg} {ind} g {limit} {}", coq_bool(*ok))); } }
         }
+        if idx % 4 == 0 { parts.push(format!("ser_ok {cg} {kbig} g {}", c_obs(&big, true))); }
         cases.push((idx, format!("let g := {} in {}", c_graph(&g), parts.join(" && "))));
     }
     if a.only.is_none() {
-        let header = "From Sophia.C18 Require Import Model.\n";
+        let header = "From Sophia.C18 Require Import Model Paths.\n";
         sum.shards = write_shards(&a.out, header, &cases, a.shards);
         sum.extra.push(("coq_cases".into(), cases.len().to_string()));
         std::fs::write(format!("{}/summary.json", a.out), sum.to_json()).unwrap();
